@@ -373,7 +373,9 @@ Definition e2e_mismatches (c : e2e_case) : list string :=
   | Some ops =>
       match run_setup maxl (empty_fs root_perm) ops with
       | FOk f0 =>
-          match build_image maxl f0 (e_users c) (e_groups c) (e_run_as c) (e_muts c) with
+          (* build.New runs Validate before anything is built *)
+          match (if validate_accounts (e_users c) (e_groups c)
+                 then build_image maxl f0 (e_users c) (e_groups c) (e_run_as c) (e_muts c) else FErr) with
           | FFuel => ["mismatch:model-out-of-fuel"]
           | FOk (f1, ra) =>
               if eo_err c then ["mismatch:impl-error-model-ok"] else
